@@ -122,6 +122,9 @@ func runProof(eng *Engine, prop string, tier string, kfs []KnownFinding, replayD
 	var lines []string
 	var results []*FuncResult
 	clauseHas := func(fs *FuncSpec) bool {
+		if hasTag(fs.FrameTags, prop) {
+			return true
+		}
 		for _, c := range fs.Requires {
 			if hasTag(c.Tags, prop) {
 				return true
